@@ -41,6 +41,9 @@ pub enum Param {
     /// a second unk.def line whose POS differs from the first line's (existing) POS in the sixth
     /// component only and is absent from the dictionary; bool = userPOS allow
     UnkTwinPos(bool),
+    /// the unk.def line is longer than 80 bytes (a part of speech with long component names, three
+    /// paddings so that any fixed byte offset falls inside a character for one of them)
+    UnkLongLine(u8),
 }
 
 pub struct RectSpace {
@@ -65,12 +68,21 @@ struct Cfg {
     simple_shape: Option<(u8, bool)>,
     regex_shape: Option<(u8, bool)>,
     unk_twin: Option<bool>,
+    unk_long: Option<u8>,
 }
+
+const LONG_POS: [[&str; 6]; 3] = [
+    ["動詞", "非自立可能", "*", "*", "五段-ワア行", "連用形-促音便"],
+    ["動詞", "非自立可能", "*", "*", "五段-ワア行a", "連用形-促音便"],
+    ["動詞", "非自立可能", "*", "*", "五段-ワア行ab", "連用形-促音便"],
+];
 
 fn shaped_pos(kind: u8) -> Vec<&'static str> {
     match kind {
         0 => vec![P_NOUN[0]],
         1 => vec![],
+        // five components, the first of which contains a comma: joined with commas it reads like P_NOUN
+        3 => vec!["名詞,普通名詞", "一般", "*", "*", "*"],
         _ => {
             let mut v = P_NOUN.to_vec();
             v.push("*");
@@ -83,7 +95,7 @@ const P_ABSENT: [&str; 6] = ["無い", "品詞", "*", "*", "*", "*"];
 
 impl RectSpace {
     fn cfg_of(&self, s: &[u16]) -> Cfg {
-        let mut c = Cfg { simple: (0, 0, 100), regex: (0, 0, 200), unk: (0, 0, 300), inhibit: (0, 0), simple_pos: None, regex_pos: None, unk_pos: None, simple_shape: None, regex_shape: None, unk_twin: None };
+        let mut c = Cfg { simple: (0, 0, 100), regex: (0, 0, 200), unk: (0, 0, 300), inhibit: (0, 0), simple_pos: None, regex_pos: None, unk_pos: None, simple_shape: None, regex_shape: None, unk_twin: None, unk_long: None };
         for &i in s {
             let (p, v) = &self.devs[i as usize];
             match p {
@@ -104,6 +116,7 @@ impl RectSpace {
                 Param::SimplePosShape(k, a) => c.simple_shape = Some((*k, *a)),
                 Param::RegexPosShape(k, a) => c.regex_shape = Some((*k, *a)),
                 Param::UnkTwinPos(a) => c.unk_twin = Some(*a),
+                Param::UnkLongLine(k) => c.unk_long = Some(*k),
             }
         }
         // a shape deviation replaces the provider's POS list altogether
@@ -115,6 +128,9 @@ impl RectSpace {
         }
         // the twin line shares the plugin's userPOS setting with the first line
         if c.unk_twin.is_some() {
+            c.unk_pos = None;
+        }
+        if c.unk_long.is_some() {
             c.unk_pos = None;
         }
         c
@@ -206,6 +222,10 @@ impl RectSpace {
         if let Some(a) = ua {
             mecab["userPOS"] = json!(a);
         }
+        let up: Vec<&str> = match c.unk_long {
+            Some(k) => LONG_POS[k as usize % 3].to_vec(),
+            None => up,
+        };
         let mut unk = format!("HIRAGANA,{},{},{},{}\n", c.unk.0, c.unk.1, c.unk.2, up.join(","));
         if c.unk_twin.is_some() {
             let mut twin: Vec<&str> = P_NOUN.to_vec();
@@ -261,7 +281,7 @@ impl Space for RectSpace {
         std::fs::write(self.dir.join(&unk_name), &unk).expect("write unk.def");
         let mut plugins = plugins;
         plugins["oovProviderPlugin"][1]["unkDef"] = json!(unk_name);
-        let ctx = format!("[matrix {}x{}] simple={:?} regex={:?} unk.def={:?} inhibitPair={:?} pos(simple,regex,unk)={:?} pos-shape(simple,regex)={:?} second-unk-line={:?}", self.n, self.m, c.simple, c.regex, c.unk, c.inhibit, (c.simple_pos, c.regex_pos, c.unk_pos), (c.simple_shape, c.regex_shape), c.unk_twin);
+        let ctx = format!("[matrix {}x{}] simple={:?} regex={:?} unk.def={:?} inhibitPair={:?} pos(simple,regex,unk)={:?} pos-shape(simple,regex)={:?} second-unk-line={:?} long-unk-line={:?}", self.n, self.m, c.simple, c.regex, c.unk, c.inhibit, (c.simple_pos, c.regex_pos, c.unk_pos), (c.simple_shape, c.regex_shape), c.unk_twin, c.unk_long);
         let r = catch(|| load(&self.dir, &plugins, self.system.clone(), vec![]));
         match r {
             Err(p) => o.fail(Failure::panic(&format!("{} loading", ctx), &p)),
@@ -336,6 +356,9 @@ fn rect_space(n: usize, m: usize, max_devs: usize) -> RectSpace {
         Row::new("東", 0, 0, 500, P_NOUN),
         Row::new("京", (m - 1) as i32, (n - 1) as i32, 600, P_NOUN),
         Row::new("い", 0, (n - 1) as i32, 700, P_NOUN),
+        Row::new("買っ", 0, 0, 800, LONG_POS[0]),
+        Row::new("買a", 0, 0, 800, LONG_POS[1]),
+        Row::new("買ab", 0, 0, 800, LONG_POS[2]),
     ];
     let dir = write_world_files(&spec);
     let system = compile_system(&spec.matrix.to_text(), &rows_to_csv(&spec.system)).unwrap_or_else(|e| panic!("rect world {}x{}: {}", n, m, e));
@@ -355,7 +378,12 @@ fn rect_space(n: usize, m: usize, max_devs: usize) -> RectSpace {
         devs.push((Param::RegexPosAbsent(a), 0));
         devs.push((Param::UnkPosAbsent(a), 0));
         devs.push((Param::UnkTwinPos(a), 0));
-        for k in 0..3u8 {
+        if a {
+            for k in 0..3u8 {
+                devs.push((Param::UnkLongLine(k), 0));
+            }
+        }
+        for k in 0..4u8 {
             devs.push((Param::SimplePosShape(k, a), 0));
             devs.push((Param::RegexPosShape(k, a), 0));
         }
